@@ -18,7 +18,7 @@ from C16 import split_file
 PID = "C17"
 CLUSTER = "Reader"
 PROPS = "props/C17.v"
-N_QUICK = 1600
+N_QUICK = 1750
 N_THOROUGH = 20000
 RULE = ("file shapes H in 0..4 pragma lines x column line absent/last/followed by 0..5 data lines, with one defect at "
         "every position (each pragma line: missing separator, empty key, empty value, duplicate of an earlier key, "
@@ -169,8 +169,10 @@ def _with_channel(cases):
             ch = ("lines", "path", "gz")[k % 3]
             if R.focused_fn("reader_from") and k % 3 == 0 and k % 2 == 0:
                 ch = "path"         # the path entry point changed: read more files through it
-        if c["shape"].get("stream") == "blank-lines":
+        if c["shape"].get("stream") in ("blank-lines", "linebreak-like"):
             ch = ("path", "gz")[k % 2]
+        if "switch_at" in c:
+            ch = "lines"
         out.append(dict(c, channel=ch))
     return out
 
@@ -179,8 +181,21 @@ def focus(changed):
     R.set_focus(changed)
 
 
+def _switch_cases():
+    """files read in Silent mode up to record k, then with reader.validation_stringency = Strict"""
+    out = []
+    data = ["1\t2", "3", "4\t5", "6\t7\t8", "9\t9"]
+    for hl in ([], ["#version v1"], ["#nosep", "#version v1"], ["#version v1", "#k", "# v"]):
+        for k in range(0, 5):
+            out.append({"lines": hl + ["a\tb"] + data, "override": None, "switch_at": k,
+                        "shape": {"stream": "switch", "H": len(hl), "col": True, "data": 5, "defect": "data+data"}})
+        out.append({"lines": hl + ["a\ta"] + data[:2], "override": None, "switch_at": 0,
+                    "shape": {"stream": "switch", "H": len(hl), "col": True, "data": 2, "defect": "col"}})
+    return out
+
+
 def generate(rng, n):
-    out = (_blank_line_files() + _multi_defect() + _grid() + _typed_grid()
+    out = (_switch_cases() + R.linebreak_like_cases() + _blank_line_files() + _multi_defect() + _grid() + _typed_grid()
            + [c for c in R.typed_special_cases() if c["shape"]["defect"] == "format-text"])
     while len(out) < n:
         out.append(R.gen_reader_case(rng, rng.choice(["valid", "defect", "defect", "adversarial"])))
@@ -199,7 +214,14 @@ def run_impl(case):
     ch = case.get("channel", "lines")
     if ch != "lines" and not R.file_safe(case["lines"]):
         ch = "lines"        # a shrunk or edited case that no longer fits a file
-    return {m: R.impl_reader(case["lines"], m, case["override"], ch) for m in ("Silent", "Strict")}
+    obs = {m: R.impl_reader(case["lines"], m, case["override"], ch) for m in ("Silent", "Strict")}
+    if "switch_at" in case:
+        obs["_switch"] = R.impl_reader_switch(case["lines"], case["override"], case["switch_at"])
+    return obs
+
+
+def comparable(obs):
+    return {k: v for k, v in obs.items() if not k.startswith("_")}
 
 
 def from_model(case, sx):
@@ -254,6 +276,17 @@ def oracle(case, obs):
     for e in tail:        # the record that was parsed but not yielded (ordering error)
         if e[1] != phys:
             out.append("data-line-error-number %r expected %d" % (e, phys))
+    # stringency switched to Strict after k records: a failure is about the line being read, not an older one
+    sw = obs.get("_switch")
+    if sw is not None and sw["init"] is None:
+        for j, st in enumerate(sw["steps"]):
+            phys = H + 1 + (j + 1)
+            want = s["recs"][j]["errs"] if j < len(s["recs"]) else None
+            if st[0] == "exc" and st[1][0] == "MafFormatException":
+                if want is None or not want or [st[1][1], st[1][2]] != want[0] or st[1][2] != phys:
+                    out.append("switched-strict-exception %r at-record-%d expected %r" % (st[1][1:], j + 1, (want or [None])[0]))
+            elif st[0] == "rec" and j >= case["switch_at"] and st[1]:
+                out.append("switched-strict-returned-a-record-with-errors at-record-%d" % (j + 1))
     # Strict: the exception stops at a physical line
     t = obs["Strict"]
     if t["end"] is not None and t["end"][0] == "MafFormatException":
